@@ -32,11 +32,13 @@ type Obligation struct {
 	Model   map[string]string
 	Output  string
 	ReplayQ []string // terms whose values are requested from the model
+	blk     *ssa.BasicBlock
 }
 
 type item struct {
 	assume string
 	obl    *Obligation
+	blk    *ssa.BasicBlock // block being executed when the fact was recorded (nil: function-level)
 }
 
 type deferred struct {
@@ -93,6 +95,7 @@ type VC struct {
 	preamble []string // axioms instantiated for this VC (spec functions etc.)
 	recInfo  map[string]*recInfo
 	replayKeys []string
+	reach      map[*ssa.BasicBlock]map[*ssa.BasicBlock]bool // reachability in the CFG without back edges
 	allocBlock map[string]*ssa.BasicBlock // allocation constants (and values defined from them) -> block
 	loops      []*loopInfo
 }
@@ -124,7 +127,7 @@ func (vc *VC) assume(f string) {
 	if f == "true" || f == "" {
 		return
 	}
-	vc.items = append(vc.items, item{assume: f})
+	vc.items = append(vc.items, item{assume: f, blk: vc.curBlock})
 }
 
 func (vc *VC) assumeG(guard, f string) { vc.assume(implies(guard, f)) }
@@ -158,7 +161,8 @@ func (vc *VC) oblige(kind, label string, props []string, guard, goal, text strin
 		o.Pos = fmt.Sprintf("%s:%d", shortPath(p.Filename), p.Line)
 	}
 	o.Seq = len(vc.items)
-	vc.items = append(vc.items, item{obl: o})
+	o.blk = vc.curBlock
+	vc.items = append(vc.items, item{obl: o, blk: vc.curBlock})
 	vc.obls = append(vc.obls, o)
 	return o
 }
